@@ -55,6 +55,12 @@ func genSame(cur, des *Schema, tbl, col string) (same bool, dep string) {
 	if ca == nil || cb == nil || ca.Gen == "" || ca.Gen != cb.Gen {
 		return false, ""
 	}
+	if ca.GenVia != "" {
+		// reads another generated column: that one must be the same generated column as well
+		if same, _ := genSame(cur, des, tbl, ca.GenVia); !same {
+			return false, ""
+		}
+	}
 	return true, ca.GenDep
 }
 
@@ -99,18 +105,28 @@ func preserved(in *oracleIn, tb, ta *TableDump, specName string, useGen bool) (v
 	}
 	var ps []pair
 	plain := map[string]pair{}
+	// STRICT added or removed by the user: an ANY column changes its typing rules with it (verbatim
+	// in a STRICT table, NUMERIC affinity otherwise); such a column is not judged
+	strictChanged := false
+	if a, b := in.cur.table(specName), in.des.table(specName); a != nil && b != nil && a.Strict != b.Strict {
+		strictChanged = true
+	}
 	for bi, cb := range tb.Cols {
 		ai := ta.colIdx(cb.Name)
 		if ai < 0 {
 			continue
 		}
 		ca := ta.Cols[ai]
+		if strictChanged && normType(cb.Type) == "any" {
+			plain[cb.Name] = pair{bi: bi, ai: ai, name: cb.Name, skip: true}
+			continue
+		}
 		if normType(ca.Type) != normType(cb.Type) {
 			// NOT NULL + DEFAULT over existing NULLs together with a type change: the values are
 			// converted (not judged), but every NULL must have become the default
 			if cb.Hidden == 0 && ca.Hidden == 0 && !cb.NotNull && ca.NotNull && ca.Dflt != "" &&
 				!strings.Contains(strings.ToUpper(ca.Dflt), "CURRENT_") && len(tb.Rows) == len(ta.Rows) {
-				if d, err := evalDefault(in.ctx, ca.Type, ca.Dflt); err == nil {
+				if d, err := evalDefault(in.ctx, ca.Type, ca.Dflt, strictSQL(ta.SQL[0])); err == nil {
 					nb, na := 0, 0
 					for _, r := range tb.Rows {
 						if r[bi] == "NULL" {
@@ -148,7 +164,7 @@ func preserved(in *oracleIn, tb, ta *TableDump, specName string, useGen bool) (v
 			}
 			if !cb.NotNull && ca.NotNull && ca.Dflt != "" {
 				p.coalesce = true
-				d, err := evalDefault(in.ctx, ca.Type, ca.Dflt)
+				d, err := evalDefault(in.ctx, ca.Type, ca.Dflt, strictSQL(ta.SQL[0]))
 				if err != nil || strings.Contains(strings.ToUpper(ca.Dflt), "CURRENT_") {
 					// not evaluable outside the table / not deterministic: the column is left out
 					p.skip = true
@@ -193,7 +209,7 @@ func preserved(in *oracleIn, tb, ta *TableDump, specName string, useGen bool) (v
 		vs = append(vs, Verdict{cls, fmt.Sprintf("%s rows %d -> %d surviving-columns=%d", where, len(tb.Rows), len(ta.Rows), len(plain))})
 		return
 	}
-	proj := func(rows [][]string, before bool) []string {
+	proj := func(rows, types [][]string, before bool) []string {
 		out := make([]string, len(rows))
 		for i, r := range rows {
 			var sb strings.Builder
@@ -207,6 +223,12 @@ func preserved(in *oracleIn, tb, ta *TableDump, specName string, useGen bool) (v
 						v = p.dflt
 						st.coalesced++
 					}
+					if !p.coalesce && i < len(types) {
+						v += ":" + types[i][p.bi] // typeof(), next to quote()
+					}
+				}
+				if !before && !p.coalesce && i < len(types) {
+					v += ":" + types[i][p.ai]
 				}
 				sb.WriteString(v)
 				sb.WriteByte(0)
@@ -216,7 +238,7 @@ func preserved(in *oracleIn, tb, ta *TableDump, specName string, useGen bool) (v
 		sort.Strings(out)
 		return out
 	}
-	b, a := proj(tb.Rows, true), proj(ta.Rows, false)
+	b, a := proj(tb.Rows, tb.Types, true), proj(ta.Rows, ta.Types, false)
 	for i := range b {
 		if b[i] != a[i] {
 			var names []string
